@@ -1591,6 +1591,140 @@ fn kind_broadword(rng: &mut Rng, out: &mut Out, id: &str, tier: &str) {
     out.end();
 }
 
+// kinds 15, 16, 17: EXHAUSTIVE small scope — every bit string of length 0..=MAXL, every index configuration,
+// every argument 0..=len+1 plus two huge ones (Rank9Sel / DArray / SArray).  One shard enumerates everything
+// (the seed is ignored); cases are ordinary cases of kinds 2, 3, 4 for the driver.
+fn kind_exhaustive_bits(which: u32, out: &mut Out, tier: &str) {
+    let maxl: usize = if tier == "thorough" { 12 } else { 9 };
+    let mut cnt = 0usize;
+    for len in 0..=maxl {
+        for pat in 0..(1usize << len) {
+            let bits: Vec<bool> = (0..len).map(|i| (pat >> i) & 1 == 1).collect();
+            let ones = bits.iter().filter(|&&b| b).count();
+            let mut args: Vec<usize> = (0..=len + 1).collect();
+            args.push(1usize << 63);
+            args.push(usize::MAX);
+            for cfg in 0..4usize {
+                let (f1, f2) = (cfg & 1 == 1, cfg & 2 == 2);
+                if which == 17 && f2 { continue; }
+                cnt += 1;
+                out.case(&format!("x{}l{}p{}c{}", which, len, pat, cfg));
+                out.data(&words_of(&bits));
+                match which {
+                    15 => {
+                        let mut x = Rank9Sel::from_bits(bits.iter().cloned());
+                        if f1 { x = x.select1_hints(); }
+                        if f2 { x = x.select0_hints(); }
+                        out.op(1002, &[len, f1 as usize, f2 as usize], "K".into(), "Rank9Sel (exhaustive)");
+                        out.op(10, &[], r_num(|| x.num_bits()), "num_bits");
+                        out.op(22, &[], r_num(|| x.num_ones()), "num_ones");
+                        out.op(23, &[], r_num(|| x.num_zeros()), "num_zeros");
+                        for &a in &args {
+                            out.op(11, &[a], r_optbool(|| x.access(a)), "access");
+                            out.op(14, &[a], r_optnum(|| x.rank1(a)), "rank1");
+                            out.op(15, &[a], r_optnum(|| x.rank0(a)), "rank0");
+                            out.op(16, &[a], r_optnum(|| x.select1(a)), "select1");
+                            out.op(17, &[a], r_optnum(|| x.select0(a)), "select0");
+                        }
+                        out.op(98, &[], r_num(|| x.size_in_bytes()), "size_in_bytes");
+                    }
+                    16 => {
+                        let mut x = DArray::from_bits(bits.iter().cloned());
+                        if f1 { x = x.enable_rank(); }
+                        if f2 { x = x.enable_select0(); }
+                        out.op(1003, &[len, f1 as usize, f2 as usize], "K".into(), "DArray (exhaustive)");
+                        out.op(22, &[], r_num(|| x.num_ones()), "num_ones");
+                        for &a in &args {
+                            out.op(11, &[a], r_optbool(|| x.access(a)), "access");
+                            out.op(16, &[a], r_optnum(|| x.select1(a)), "select1");
+                            if f2 { out.op(17, &[a], r_optnum(|| x.select0(a)), "select0"); }
+                            if f1 {
+                                out.op(14, &[a], r_optnum(|| x.rank1(a)), "rank1");
+                                out.op(15, &[a], r_optnum(|| x.rank0(a)), "rank0");
+                            }
+                        }
+                        out.op(98, &[], r_num(|| x.size_in_bytes()), "size_in_bytes");
+                    }
+                    _ => {
+                        let mut x = SArray::from_bits(bits.iter().cloned());
+                        if f1 { x = x.enable_rank(); }
+                        out.op(1004, &[len, f1 as usize], "K".into(), "SArray (exhaustive)");
+                        out.op(22, &[], r_num(|| x.num_ones()), "num_ones");
+                        for &a in &args {
+                            out.op(11, &[a], r_optbool(|| x.access(a)), "access");
+                            out.op(16, &[a], r_optnum(|| x.select1(a)), "select1");
+                            if f1 {
+                                out.op(14, &[a], r_optnum(|| x.rank1(a)), "rank1");
+                                out.op(15, &[a], r_optnum(|| x.rank0(a)), "rank0");
+                                out.op(18, &[a], r_optnum(|| x.predecessor1(a)), "predecessor1");
+                                out.op(20, &[a], r_optnum(|| x.successor1(a)), "successor1");
+                            }
+                        }
+                        out.op(98, &[], r_num(|| x.size_in_bytes()), "size_in_bytes");
+                    }
+                }
+                let _ = ones;
+                out.end();
+            }
+        }
+    }
+    *out.stats.entry(format!("exhaustive:kind{}-cases", which)).or_insert(0) += cnt as u64;
+}
+
+// kind 18: EXHAUSTIVE small scope for EliasFanoBuilder — every (u, m) with u <= 4, 1 <= m <= 3 and every push sequence
+// of length <= 3 over the values 0..=u+1, followed by build and a full read-back
+fn kind_exhaustive_efb(out: &mut Out) {
+    let mut cnt = 0u64;
+    for u in 0..=4usize {
+        for m in 0..=3usize {
+            let vals: Vec<usize> = (0..=u + 1).collect();
+            let nv = vals.len();
+            for l in 0..=3usize {
+                let total = nv.pow(l as u32);
+                for code in 0..total {
+                    let mut seq = vec![];
+                    let mut c = code;
+                    for _ in 0..l { seq.push(vals[c % nv]); c /= nv; }
+                    cnt += 1;
+                    out.case(&format!("x18u{}m{}l{}s{}", u, m, l, code));
+                    let b = EliasFanoBuilder::new(u, m);
+                    let mut b = match b {
+                        Err(_) => { out.op(1005, &[u, m], "E".into(), "EliasFanoBuilder::new"); out.end(); continue; }
+                        Ok(b) => { out.op(1005, &[u, m], "K".into(), "EliasFanoBuilder::new"); b }
+                    };
+                    for &v in &seq {
+                        let r = r_unit(|| b.push(v));
+                        out.op(50, &[v], r, "push");
+                    }
+                    let ef = guard(AssertUnwindSafe(|| b.build().enable_rank()));
+                    match ef {
+                        None => { out.op(52, &[1], "P".into(), "build"); }
+                        Some(ef) => {
+                            out.op(52, &[1], "K".into(), "build");
+                            out.op(10, &[], r_num(|| ef.len()), "len");
+                            out.op(60, &[], r_num(|| ef.universe()), "universe");
+                            for k in 0..=4usize {
+                                out.op(61, &[k], r_optnum(|| ef.select(k)), "select");
+                                out.op(62, &[k], r_optnum(|| ef.delta(k)), "delta");
+                            }
+                            if ef.len() > 0 {
+                                for p in 0..=u + 1 {
+                                    out.op(63, &[p], r_optnum(|| ef.rank(p)), "rank");
+                                    out.op(64, &[p], r_optnum(|| ef.predecessor(p)), "predecessor");
+                                    out.op(65, &[p], r_optnum(|| ef.successor(p)), "successor");
+                                    out.op(66, &[p], r_optnum(|| ef.binsearch(p)), "binsearch");
+                                }
+                            }
+                        }
+                    }
+                    out.end();
+                }
+            }
+        }
+    }
+    *out.stats.entry("exhaustive:kind18-cases".to_string()).or_insert(0) += cnt;
+}
+
 // kind 14: primitive / Option / Vec wrappers (C08, C13): checked against a reference encoder written here
 // (little-endian fixed width; Option = 1 tag byte + payload; Vec = 8-byte length + elements)
 trait RefEnc { fn enc(&self, out: &mut Vec<u8>); }
@@ -1721,6 +1855,13 @@ fn main() {
     let intr = cfg!(feature = "intrinsics");
     writeln!(out.buf, "CFG {} {}", dbg as u8, intr as u8).unwrap();
     for &k in &kinds {
+        if k >= 15 && k <= 18 {
+            // exhaustive enumerations: run once (by the first shard of every build: seed a multiple of 100), ignore `cases`
+            if seed % 100 == 0 {
+                if k == 18 { kind_exhaustive_efb(&mut out) } else { kind_exhaustive_bits(k, &mut out, tier) }
+            }
+            continue;
+        }
         let mut rng = Rng(seed.wrapping_mul(0x9E3779B97F4A7C15).wrapping_add(k as u64 * 1_000_003));
         for i in 0..cases {
             let id = format!("k{}s{}c{}", k, seed, i);
